@@ -11,7 +11,7 @@ if "--log" in sys.argv:
     from streamflow.log_handler import logger
     logger.setLevel(logging.DEBUG); logger.addHandler(logging.StreamHandler())
 d = os.path.join(sim.scratch, "doc"); os.makedirs(d)
-gen = cwlgen.generate(tape, d, max_steps=doc["params"].get("max_steps", 6))
+gen = cwlgen.generate(tape, d, max_steps=doc["params"].get("max_steps", 6), grammar=doc["params"].get("grammar", 1))
 def strip(d):
     if isinstance(d, dict):
         d = {k: strip(v) for k, v in d.items() if k != "requirements"}
